@@ -921,7 +921,18 @@ def _replace_rest(c, ix, fo, base, incl, excl, wi, wo, tr):
                 empties = [x for e in p.trace if e.kind == 'str-empty' for x in e.data]
                 v = p.val
                 sc = v if isinstance(v, StrCat) else StrCat([v])
-                subs = [q for q in sc.parts if call_of(p, q)[0] == '_sub']
+                def substituted(q):
+                    """the text a part is the substitution of: `_sub(<text>)`, or the substitution itself,
+                    `<the pattern>.sub(<the replacement>, <text>)`"""
+                    nm_, recv_, a_, _ = call_of(p, q)
+                    if nm_ == '_sub' and len(a_) == 1:
+                        return a_[0]
+                    if nm_ == 'sub' and len(a_) == 2 and attr_path(recv_)[1][-1:] == ('_regex',) \
+                            and attr_path(a_[0])[1][-1:] == ('_replacement',):
+                        return a_[1]
+                    return None
+
+                subs = [q for q in sc.parts if substituted(q) is not None]
                 key = '%s.process/%s' % (cls.name, shape)
                 if not subs:
                     plain = all(isinstance(q, K) or any(q is b for b in (body,)) for q in sc.parts)
@@ -933,8 +944,7 @@ def _replace_rest(c, ix, fo, base, incl, excl, wi, wo, tr):
                 c.require(len(subs) == 1 and sc.parts[0] is subs[0] and all(isinstance(q, K) for q in sc.parts[1:]),
                           'C05-i: the result %r of %s is not understood' % (sc, key))
                 tail = ''.join(q.v for q in sc.parts[1:])
-                arg = call_of(p, subs[0])[2]
-                arg = arg[0] if len(arg) == 1 else None
+                arg = substituted(subs[0])
                 asc = arg if isinstance(arg, StrCat) else (StrCat([arg]) if arg is not None else None)
                 if cls is excl and shape == 'with-new-line':
                     ok = asc is not None and asc.key(empties) == StrCat([body]).key(empties) and tail == '\n'
